@@ -36,6 +36,9 @@ var profiles = map[string]Profile{
 	// a completely full last block, then restores and a few transactions
 	"dense": {Name: "dense", Txns: 5, KeyedPct: 20, SeedPct: 100, DensePct: 100, SchemaPct: 5, RestorePct: 60, ReplicaPct: 20,
 		AbortPct: 10, FilterPct: 6, FailInsPct: 4, MaxStmts: 5},
+	// string columns over a small alphabet with a sorted index from the start, frequent Ascend
+	"sorted": {Name: "sorted", Txns: 16, KeyedPct: 10, SeedPct: 30, SchemaPct: 10, RestorePct: 5, ReplicaPct: 0,
+		AbortPct: 10, FilterPct: 30, FailInsPct: 3, MaxStmts: 6, Kinds: []Kind{KStr, KStrCat, KEnum, KStr, KInt16}, ForceSorted: true},
 	"alloc": {Name: "alloc", Txns: 22, KeyedPct: 15, SeedPct: 35, NestedPct: 25, DensePct: 3, SchemaPct: 4, AbortPct: 25, FilterPct: 10,
 		FailInsPct: 12, MaxStmts: 9},
 }
@@ -166,6 +169,8 @@ func main() {
 		cmdHist(os.Args[2:])
 	case "alloc":
 		cmdAlloc(os.Args[2:])
+	case "codec":
+		cmdCodec(os.Args[2:])
 	default:
 		fmt.Fprintln(os.Stderr, "unknown engine", os.Args[1])
 		os.Exit(2)
